@@ -79,6 +79,13 @@ def run(ctx):
         p_bookkeeping(ctx)
     except Exception as ex:          # out of reach for this run: undecided, never a violation
         ctx.obligation("p_bookkeeping.out_of_reach", "writer.write_column", "unknown", "engine", 0.0, detail=f"{type(ex).__name__}: {ex}", sample=True)
+    # ... and that the DECODE step of the statistics chain gives values of the annotated meaning (converted_types.convert on min / max:
+    # an unsigned bound decoded as signed flips the comparison)
+    try:
+        from ._units import p_units
+        p_units(ctx)
+    except Exception as ex:          # out of reach for this run: undecided, never a violation
+        ctx.obligation("p_units.out_of_reach", "converted_types.convert", "unknown", "engine", 0.0, detail=f"{type(ex).__name__}: {ex}", sample=True)
     try:
         from runtime import c05_superset
     except ImportError:
